@@ -375,6 +375,9 @@ func (self Node) InterfaceMap(opts *Options) (map[interface{}]interface{}, error
 			ret[&x] = vv
 		case map[thrift.FieldID]interface{}:
 			ret[&x] = vv
+		case []byte:
+			// a STRING key under opts.CastStringAsBinary
+			ret[&x] = vv
 		default:
 			ret[kv] = vv
 		}
